@@ -27,7 +27,7 @@ PASSING = [
 def run_history(runs, timeout=120):
     d = tempfile.mkdtemp(prefix="vhist-", dir=os.path.join(BUILD))
     try:
-        inp = "\n".join("run %s %s %s %s 1 %s %s" % (r["persist"], r["thread"], r["ms"], r["script"], r["objs"], r["bodies"]) for r in runs) + "\n"
+        inp = "\n".join("run %s %s %s %s 1 %s %s" % (r["persist"] + r.get("ug", ""), r["thread"], r["ms"], r["script"], r["objs"], r["bodies"]) for r in runs) + "\n"
         p = subprocess.run([VHARNESS, "history", d], input=inp, stdout=subprocess.PIPE, stderr=subprocess.PIPE, text=True, timeout=timeout)
         outs = [l for l in p.stdout.split("\n") if l.startswith("R ")]
         segs = {}
@@ -76,6 +76,8 @@ def run(tier):
     hists.append([dict(P, persist="none", thread="same"), dict(P, persist="print", thread="same")])
     hists.append([dict(P, persist="print", thread="same"), dict(P, persist="print", thread="same")])
     hists.append([dict(P, persist="print", thread="same"), dict(P, persist="none", thread="same")])
+    hists.append([dict(ms="none", script="-", objs="a0", bodies="a0.add.1", persist="none", thread="same", ug="+e"),
+                  dict(ms="none", script="-", objs="a0,m", bodies="lk1;a0.add.1;pn", persist="print", thread="same")])
     hists.append([dict(ms="none", script="-", objs="a0", bodies="a0.add.1", persist="none", thread="same"),
                   dict(ms="none", script="-", objs="a0", bodies="a0.add.1;pn", persist="file", thread="same")])
     for _ in range(n):
@@ -85,8 +87,11 @@ def run(tier):
                 ms, script, objs, bodies, _k = rng.choice(FAILING)
             else:
                 ms, script, objs, bodies = rng.choice(PASSING)
+            # the ungraceful-shutdown settings of a run are its own too: runs that cannot panic sometimes ask for early
+            # return / dropped continuation functions, which must not change how a LATER run reports its panic
+            ug = rng.choice(["", "", "+e", "+e+d", "+d"]) if "pn" not in bodies else ""
             h.append({"ms": ms, "script": script, "objs": objs, "bodies": bodies, "persist": rng.choice(["none", "print", "print", "file", "file"]),
-                      "thread": rng.choice(["same", "same", "new"])})
+                      "thread": rng.choice(["same", "same", "new"]), "ug": ug})
         hists.append(h)
     with ThreadPoolExecutor(max_workers=JOBS) as ex:
         results = list(ex.map(run_history, hists))
@@ -180,12 +185,22 @@ def run(tier):
     for i in range(24 if tier == "quick" else 240):
         kind = ["random", "pct", "urw", "random"][i % 4]
         fcases.append("replay %s %d %d %d none a0,m %s" % (kind, rng.getrandbits(64), rng.randint(1, 3), rng.choice([1, 3, 6]), fails[i % len(fails)]))
+    # failures that depend on the schedule: the failing execution is usually not the first one of the run
+    late = [("m,m,a0", "sp1;rn;lk0;yd;rn;lk1;ul1;ul0;jn0|rn;lk1;yd;rn;lk0;ul0;ul1"),
+            ("m,v,a2", "sp1;rn;yd;lk0;rn;cn1;ul0;jn0|rn;lk0;rn;cw1.0;ul0"),        # lost notification: the waiter waits forever
+            ("m,m,a0", "sp1;sp2;rn;jn0;jn1;rn|rn;lk0;a2.add.1;yd;lk1;ul1;ul0;rn|rn;a2.ld;lk1;rn;yd;lk0;ul0;ul1")]
+    for i in range(36 if tier == "quick" else 400):
+        kind = ["random", "pct", "urw", "random"][i % 4]
+        objs, bodies = late[i % len(late)]
+        fcases.append("replay %s %d %d %d none %s %s" % (kind, rng.getrandbits(64), rng.randint(1, 3), rng.choice([8, 16]), objs, bodies))
     fo = ctx.run_impl("prog", fcases)
     ctx.evaluations += len(fcases)
-    nrep = 0
+    nrep = nlate = 0
     for c, o in zip(fcases, fo):
         if o.endswith("ALLEQ") and " F=-" not in o:
             nrep += 1
+            if not o.startswith("N=1 "):
+                nlate += 1
         elif o.startswith("SKIP"):
             pass
         elif not o.endswith("ALLEQ"):
@@ -193,7 +208,52 @@ def run(tier):
             if nv <= 5:
                 ctx.violation({"layer": "prog", "cases": [c], "implementation_answer": o[:2500],
                                "why": "the schedule of a failing execution under a built-in scheduler did not reproduce it (random data included)"})
+    # ---- portfolio runs: fail exactly when a member does, with a member's own payload
+    pprogs = [("m,m", "sp1;lk0;yd;lk1;ul1;ul0;jn0|lk1;yd;lk0;ul0;ul1"),       # deadlocks under some schedules only
+              ("a0", "sp1;a0.add.1;jn0|a0.add.2"),                           # always passes
+              ("a0", "sp1;a0.add.1;jn0;pn|a0.add.2"),                        # always panics
+              ("m,v,a2", "sp1;yd;lk0;cn1;ul0;jn0|lk0;cw1.0;ul0"),             # lost notification under some schedules
+              ("a0,m", "sp1;lk1;a0.add.1;ul1;jn0|lk1;a0.add.2;ul1")]
+    def mem():
+        k = rng.choice(["dfs", "rr", "random", "urw", "pct"])
+        if k == "dfs":
+            return "dfs.%d" % rng.choice([1, 2, 40])
+        if k == "rr":
+            return "rr.%d" % rng.choice([1, 3])
+        if k == "pct":
+            return "pct.%d.%d.%d" % (rng.getrandbits(40), rng.randint(1, 3), rng.choice([1, 4, 20]))
+        return "%s.%d.%d" % (k, rng.getrandbits(40), rng.choice([1, 4, 20]))
+    pcases = ["portfolio 0 dfs.40,rr.1 none m,m " + pprogs[0][1], "portfolio 0 rr.1,dfs.40 none m,m " + pprogs[0][1], "portfolio 1 dfs.40,rr.1 none m,m " + pprogs[0][1]]
+    for i in range(40 if tier == "quick" else 400):
+        objs, bodies = pprogs[i % len(pprogs)]
+        pcases.append("portfolio %d %s none %s %s" % (rng.choice([0, 1]), ",".join(mem() for _ in range(rng.randint(1, 4))), objs, bodies))
+    po = ctx.run_impl("prog", pcases)
+    ctx.evaluations += len(pcases)
+    pstat = {"portfolio_runs": len(pcases), "failed": 0, "mixed_members": 0}
+    for c, o in zip(pcases, po):
+        m = re.match(r"P=(\S+) M=(\S+)$", o)
+        why = None
+        if not m:
+            why = "the portfolio run gave no answer"
+        else:
+            pr, mem_r = m.group(1), m.group(2).split(",")
+            failing = [x for x in mem_r if x != "ok"]
+            if failing:
+                pstat["failed"] += 1
+            if failing and len(failing) < len(mem_r):
+                pstat["mixed_members"] += 1
+                ctx.note_nontrivial(c)
+            if bool(failing) != (pr != "ok"):
+                why = "the portfolio run %s although its members alone gave %s" % ("passed" if pr == "ok" else "failed (%s)" % pr, mem_r)
+            elif failing and pr not in failing:
+                why = "the portfolio run failed with %s, which is not the failure of any of its members (%s)" % (pr, mem_r)
+        if why:
+            nv += 1
+            if nv <= 8:
+                ctx.violation({"layer": "prog", "cases": [c], "implementation_answer": o[:600], "why": why})
+    stats.update(pstat)
     stats["failing_runs_replayed_with_random_data"] = nrep
+    stats["of_which_failed_after_the_first_execution"] = nlate
     ctx.cov["history_stats"] = stats
     ctx.cov["rule"] = ("histories of 1-5 configured runs (persistence none/print/file, same or new thread; deadlocks, panics in main / in a spawned thread / while holding a lock, exceeded FailAfter bounds, passing and stopped runs) "
                        "executed in ONE fresh process each; stderr is attributed to runs by markers, files by directory listing; each run must emit exactly what its own configuration prescribes; "
